@@ -408,3 +408,8 @@ Proof.
   assert (D : decode_word 3 0x800000000 = Some q) by (apply decode_word_iff; [lia|lia|split; assumption]).
   vm_compute in D. discriminate.
 Qed.
+
+Lemma C03_raw_loose_stmt T w (eqb : Z * Z -> Z * Z -> bool) : - 2 ^ 31 <= T < 2 ^ 31 -> 0 <= w < 2 ^ 64 ->
+  (forall a, eqb a a = true) ->
+  expect_accepts eqb (raw_loose_expect T w) (PathToIndexLoose_debug T w) = true.
+Proof. intros HT Hw. exact (raw_loose_accepts T w HT Hw eqb). Qed.
